@@ -256,6 +256,27 @@ Definition trace_ok (tr : list obs) : bool :=
   Nat.eqb (count is_free tr) 1 && no_touch_after_free tr && Nat.eqb (count is_requeue tr) 1
   && Nat.eqb (count is_deadlock tr) 0 && after is_requeue is_return tr.
 
+(* the ledger of ONE job record over time (the pool recycles records): free <-> live *)
+Inductive lstate := LFreeSt | LLive.
+Definition ledger_step (s : lstate) (e : obs) : option lstate :=
+  match e, s with
+  | OAlloc, LFreeSt => Some LLive
+  | OAlloc, LLive => None                                   (* handed out while in use *)
+  | OFree _, LLive => Some LFreeSt
+  | OFree _, LFreeSt => None                                (* double free *)
+  | (OUse | OHandoff | ORequeue | OSys _ | OSysDone), LLive => Some LLive
+  | (OUse | OHandoff | ORequeue | OSys _ | OSysDone), LFreeSt => None   (* touched after its free *)
+  | ODeadlock, _ => None
+  | (OReturn | OEndCall | OEndReturn), st => Some st
+  end.
+Fixpoint ledger_run (s : lstate) (tr : list obs) : option lstate :=
+  match tr with
+  | [] => Some s
+  | e :: t => match ledger_step s e with Some s' => ledger_run s' t | None => None end
+  end.
+Definition ledger_closed (tr : list obs) : bool :=
+  match ledger_run LFreeSt tr with Some LFreeSt => true | _ => false end.
+
 (* observable projection (the implementation's log cannot see reads of job->ret) *)
 Definition observable (e : obs) : bool := negb (is_use e).
 Definition obs_code (e : obs) : nat :=
